@@ -60,6 +60,7 @@ type Opts struct {
 	NoTopReturn   bool // C10: never return at top level except the final statement
 	TailRec       bool // include tail-recursive helpers with large depth
 	DeepRecursion int  // bound for non-tail recursion
+	ImportProb    float64 // probability that a statement is an import use (C12)
 }
 
 // Prog is a generated program.
@@ -588,6 +589,10 @@ func (g *G) genBlock(o *out, n int, depth int) {
 func (g *G) genStmt(o *out, depth int) {
 	g.budget--
 	ed := g.o.ExprDepth
+	if len(g.mods) > 0 && g.o.ImportProb > 0 && g.chance(g.o.ImportProb) {
+		g.genImportUse(o)
+		return
+	}
 	choice := g.pick(100)
 	switch {
 	case choice < 14: // define
@@ -1049,6 +1054,16 @@ func (g *G) genTry(o *out, depth int) {
 func (g *G) genImportUse(o *out) {
 	g.tag("import")
 	m := g.mods[g.pick(len(g.mods))]
+	switch g.pick(5) {
+	case 3:
+		// state written through one import site must be visible through another
+		o.line(fmt.Sprintf("import(\"%s\").bump(%s)", m, g.intLit()))
+		o.line(fmt.Sprintf("L(%d, import(\"%s\").get())", g.lid(), m))
+		return
+	case 4:
+		o.line(fmt.Sprintf("L(%d, import(\"%s\").dep())", g.lid(), m))
+		return
+	}
 	switch g.pick(3) {
 	case 0:
 		o.line(fmt.Sprintf("L(%d, import(\"%s\").bump(%s))", g.lid(), m, g.genInt(1)))
@@ -1081,9 +1096,15 @@ func (g *G) genModule(name string) string {
 	if len(g.mods) > 0 && g.chance(0.6) {
 		dep := g.mods[g.pick(len(g.mods))]
 		o.line("dep := import(\"" + dep + "\")")
-		o.line("return {bump: func(d) { state += d; return state + dep.bump(1) }, get: func() { return state * 1000 + dep.get() }}")
+		if g.chance(0.5) {
+			o.line("return {bump: func(d) { state += d; return state + dep.bump(1) }, get: func() { return state * 1000 + dep.get() }, dep: func() { return import(\"" + dep + "\").get() }}")
+		} else {
+			// import inside a function of the module: executes only when called
+			dep2 := g.mods[g.pick(len(g.mods))]
+			o.line("return {bump: func(d) { state += d; return state + dep.bump(1) }, get: func() { return state * 1000 + dep.get() }, dep: func() { return import(\"" + dep2 + "\").bump(1) }}")
+		}
 	} else {
-		o.line("return {bump: func(d) { state += d; return state }, get: func() { return state }}")
+		o.line("return {bump: func(d) { state += d; return state }, get: func() { return state }, dep: func() { return -state }}")
 	}
 	g.pop()
 	return o.sb.String()
